@@ -19,7 +19,8 @@ type Clause struct {
 	Props []string
 	Loop  int
 	Line  int
-	Name  string // for let
+	Name  string // for let / loop ghost
+	Sort  string // for loop ghost: SMT sort of the recorded values
 	node  *Node
 	nodes []*Node
 }
@@ -159,8 +160,23 @@ func (db *ContractDB) parseFile(pkgPath, file, text string) error {
 		case "loop":
 			// loop <k> invariant <expr>
 			var k int
-			if _, err := fmt.Sscanf(fields[1], "%d", &k); err != nil || len(fields) < 3 || (fields[2] != "invariant" && fields[2] != "step") {
-				return fmt.Errorf("%s:%d: expected 'loop <k> invariant' or 'loop <k> step'", file, i+1)
+			if _, err := fmt.Sscanf(fields[1], "%d", &k); err != nil || len(fields) < 3 || (fields[2] != "invariant" && fields[2] != "step" && fields[2] != "ghost") {
+				return fmt.Errorf("%s:%d: expected 'loop <k> invariant', 'loop <k> step' or 'loop <k> ghost'", file, i+1)
+			}
+			if fields[2] == "ghost" {
+				// loop <k> ghost <name> <sort> := <expr>: name(j) is the value of expr at the end of iteration j (history sequence)
+				j := strings.Index(rest, ":=")
+				if j < 0 || len(fields) < 6 {
+					return fmt.Errorf("%s:%d: expected 'loop <k> ghost <name> <sort> := <expr>'", file, i+1)
+				}
+				cl.Kind = "loopghost"
+				cl.Loop = k
+				cl.Name = fields[3]
+				hd := strings.TrimSpace(rest[:j])
+				hd = strings.TrimSpace(hd[strings.Index(hd, fields[3])+len(fields[3]):])
+				cl.Sort = qsort(strings.Trim(hd, "`"))
+				rest = strings.TrimSpace(rest[j+2:])
+				break
 			}
 			cl.Kind = "invariant"
 			if fields[2] == "step" {
@@ -221,7 +237,7 @@ func (c *Contract) Prepare() error {
 	for _, cl := range c.Clauses {
 		var err error
 		switch cl.Kind {
-		case "requires", "assumes", "ensures", "invariant", "loopstep", "walkinv", "let", "panics", "succeeds":
+		case "requires", "assumes", "ensures", "invariant", "loopstep", "loopghost", "walkinv", "let", "panics", "succeeds":
 			cl.node, err = ParseSpec(cl.Text)
 		case "assigns":
 			if strings.TrimSpace(cl.Text) == `\nothing` {
